@@ -62,9 +62,31 @@ fn hline(idx: u64, nops: usize, o: &RunOut) -> String {
     )
 }
 
+static LAST_PANIC: std::sync::Mutex<String> = std::sync::Mutex::new(String::new());
+
+/// compile / search panics are caught where they happen and are outcomes.  A panic that
+/// escapes anywhere else in a history (building or converting a document, cloning or
+/// dropping a handle, rendering a result) leaves the simulator unable to go on.  Whether
+/// such a step panics is not what C13 / C17 state (and which documents a process builds at
+/// all differs between the in-order and the history-free process), so it is reported as
+/// harness trouble with the place of the panic (exit 2), never as a violation.
+fn guarded(run: impl FnOnce() -> RunOut) -> RunOut {
+    match std::panic::catch_unwind(std::panic::AssertUnwindSafe(run)) {
+        Ok(o) => o,
+        Err(_) => {
+            let at = LAST_PANIC.lock().map(|s| s.clone()).unwrap_or_default();
+            die(&format!("a panic escaped a history outside compile / search, raised at {}", at));
+        }
+    }
+}
+
 fn main() {
-    // the SUT's panics are outcomes, not noise on stderr
-    std::panic::set_hook(Box::new(|_| {}));
+    // the SUT's panics are outcomes, not noise on stderr; remember where the last one was raised
+    std::panic::set_hook(Box::new(|info| {
+        if let Ok(mut s) = LAST_PANIC.lock() {
+            *s = info.location().map(|l| format!("{}:{}", l.file(), l.line())).unwrap_or_else(|| "unknown location".into());
+        }
+    }));
     let args: Vec<String> = std::env::args().collect();
     let cmd = args.get(1).map(|s| s.as_str()).unwrap_or("");
     match cmd {
@@ -104,12 +126,14 @@ fn main() {
             for idx in idxs {
                 let hseed = mix(seed, idx);
                 let ops = genhist::gen_history(hseed);
-                let ex = Exec::new(&world, &mut global, &mut stats, idx, false);
-                let o = if mode == "p3" {
-                    ex.run_p3(&ops, mix(hseed, 0x9e3))
-                } else {
-                    ex.run_p1(&ops)
-                };
+                let o = guarded(|| {
+                    let ex = Exec::new(&world, &mut global, &mut stats, idx, false);
+                    if mode == "p3" {
+                        ex.run_p3(&ops, mix(hseed, 0x9e3))
+                    } else {
+                        ex.run_p1(&ops)
+                    }
+                });
                 writeln!(out, "{}", hline(idx, ops.len(), &o)).unwrap();
                 for v in &o.violations {
                     nviol += 1;
@@ -181,13 +205,15 @@ fn main() {
                     .iter()
                     .map(|o| op_from_json(o).unwrap_or_else(|e| die(&e)))
                     .collect();
-                let ex = Exec::new(&world, &mut global, &mut stats, idx, verbose);
-                let o = if mode == "p3" {
-                    let hseed = mix(v.get("seed").and_then(|s| s.as_u64()).unwrap_or(0), idx);
-                    ex.run_p3(&ops, mix(hseed, 0x9e3))
-                } else {
-                    ex.run_p1(&ops)
-                };
+                let o = guarded(|| {
+                    let ex = Exec::new(&world, &mut global, &mut stats, idx, verbose);
+                    if mode == "p3" {
+                        let hseed = mix(v.get("seed").and_then(|s| s.as_u64()).unwrap_or(0), idx);
+                        ex.run_p3(&ops, mix(hseed, 0x9e3))
+                    } else {
+                        ex.run_p1(&ops)
+                    }
+                });
                 for l in &o.log {
                     println!("L {} {}", idx, l);
                 }
